@@ -83,7 +83,7 @@ package proxy
 //@   loop 1 invariant [probed_from_zero] rnext(old(r.robin)) >= len(pool) ==> forall(k, 0, int(i), !pool[k].Available())
 //@   loop 1 decreases poolLen - i
 
-//@ unit hash_policies props=C05 filter=`proxy\.(IPHash|URIHash|Header)\)\.Select$`
+//@ unit hash_policies frames=on props=C05 filter=`proxy\.(IPHash|URIHash|Header)\)\.Select$`
 //@ // "hash-based policies send the same key to the same backend": what is hashed is the client address without its port,
 //@ // the request URI as received, or the values of the configured header names looked up the way net/http stores them
 //@ // (one canonicalising Header.Get per configured name: `policy header x-session-id` keys on X-Session-Id); the result is
@@ -130,7 +130,12 @@ package proxy
 //@   ensures [one] ((endsSlash(a) != startsSlash(b)) || (!endsSlash(a) && b == "")) ==> result == a + b
 //@   ensures [length] len(result) <= len(a) + len(b) + 1 && len(result) >= len(a) + len(b) - 1
 
-//@ unit proxy_conns props=C05,C17,C04 filter=`proxy\.Proxy\)\.ServeHTTP$|proxy\.newBufferedBody$`
+//@ unit proxy_conns frames=on props=C05,C17,C04 filter=`proxy\.Proxy\)\.ServeHTTP$|proxy\.newBufferedBody$`
+//@ use caskethttp/httpserver/contracts_verif.go:new_replacer
+//@ func (*bufferedBody).rewind
+//@ func (Proxy).match
+//@ func NewSingleHostReverseProxy
+//@   ensures result != nil
 //@ func (*ReverseProxy).ServeHTTP
 //@   may_panic
 //@ func createUpstreamRequest
@@ -168,6 +173,7 @@ package proxy
 //@ invariant httpserver.ErrMaxBytesExceeded != nil
 //@ axiom (e error, t error) (tl(e, t) == 1) == errors.Is(e, t)
 //@ func (Proxy).ServeHTTP
+//@   modifies Request.Body, Request.Host, UpstreamHost.Fails, ghost:downFnMade, ghost:lastBuffered, ghost:lastTooLarge, ghost:upRulesRun
 //@   may_panic
 //@   requires r != nil && r.Header != nil && w != nil && lastBuffered == 0 && lastTooLarge == 0
 //@   at call (*ReverseProxy).ServeHTTP do lastTooLarge = tl(result, httpserver.ErrMaxBytesExceeded)
@@ -188,7 +194,7 @@ package proxy
 //@   loop 1 invariant unchanged("UpstreamHost.Conns")
 //@   loop 1 invariant [no_too_large_error_carried_into_a_retry] lastTooLarge != 1
 
-//@ unit upstream_request props=C04 filter=`proxy\.createUpstreamRequest$`
+//@ unit upstream_request frames=on props=C04 filter=`proxy\.createUpstreamRequest$`
 //@ spec canon(s string) string
 //@ invariant forall(j, 0, len(hopHeaders), canon(hopHeaders[j]) == hopHeaders[j] && hopHeaders[j] != "X-Forwarded-For")
 
@@ -324,7 +330,7 @@ package proxy
 //@   requires u != nil
 //@   ensures [configured_value] result == u.from
 
-//@ unit policy_constructors props=C05 filter=`proxy\.init#1\$[0-9]+$`
+//@ unit policy_constructors frames=on props=C05 filter=`proxy\.init#1\$[0-9]+$`
 //@ // Every `policy` directive gets its own policy object: RoundRobin keeps its cursor in the object, so "round_robin visits
 //@ // available backends evenly" per proxy block needs an object that no other block advances.
 //@ func init#1$1
@@ -342,7 +348,7 @@ package proxy
 //@ func init#1$7
 //@   ensures [own_policy_object] fresh(result)
 
-//@ unit upstream_ports props=C11 filter=`proxy\.parseUpstream$`
+//@ unit upstream_ports frames=on props=C11 filter=`proxy\.parseUpstream$`
 //@ // "ends in bounded time": a port range in an upstream address expands to at most one host per TCP port, for every
 //@ // argument text; index and slice safety of the address dissection; the expansion loop terminates without overflow.
 //@ use @verif/specs/stdlib.spec:stdlib
@@ -376,7 +382,7 @@ package proxy
 //@   ensures [interval_stays_positive] result == nil ==> hcOK(u)
 //@   ensures [cursor_monotone] c.cursor >= old(c.cursor)
 
-//@ unit upstream_constructor props=C04,C11 dispenser_variants=on nilchecks=on filter=`proxy\.NewStaticUpstreams$|proxy\.NewStaticUpstreams\$1$`
+//@ unit upstream_constructor frames=on props=C04,C11 dispenser_variants=on nilchecks=on filter=`proxy\.NewStaticUpstreams$|proxy\.NewStaticUpstreams\$1$`
 //@ // The constructor of a proxy block. C11: safety and termination for every token sequence. C04 ("exactly the configured
 //@ // `without` prefix / options"): NewHost copies the block's scalar options into each backend when it is created, so
 //@ // every backend is created AFTER the last option of its block was parsed (optionsParsed counts parseBlock calls;
@@ -394,8 +400,10 @@ package proxy
 //@ extern (net/http.Header).Get
 //@   pure
 //@ func NewStaticUpstreams$1
+//@   modifies WaitGroup.noCopy, WaitGroup.sema, WaitGroup.state
 //@   requires upstream != nil && upstream.HealthCheck.Interval > 0
 //@ func NewStaticUpstreams
+//@   modifies staticUpstream, Client.CheckRedirect, Client.Jar, Client.Timeout, Client.Transport, Dispenser.cursor, Dispenser.nesting, E:*github.com/tmpim/casket/caskethttp/proxy.UpstreamHost, E:github.com/tmpim/casket/caskethttp/proxy.headerReplacement, MD:map[string][]github.com/tmpim/casket/caskethttp/proxy.headerReplacement, MV:map[string][]github.com/tmpim/casket/caskethttp/proxy.headerReplacement, Uint64._, Uint64.v, WaitGroup.noCopy, WaitGroup.sema, WaitGroup.state, ghost:createdAt, ghost:optionsParsed, staticUpstream.CaCertPool, staticUpstream.ClientKeyPair, staticUpstream.FailTimeout, staticUpstream.FallbackDelay, staticUpstream.HealthCheck, staticUpstream.Hosts, staticUpstream.IgnoredSubPaths, staticUpstream.KeepAlive, staticUpstream.MaxConns, staticUpstream.MaxFails, staticUpstream.Policy, staticUpstream.Timeout, staticUpstream.TryDuration, staticUpstream.TryInterval, staticUpstream.WithoutPathPrefix, staticUpstream.downstreamHeaderReplacements, staticUpstream.downstreamHeaders, staticUpstream.from, staticUpstream.insecureSkipVerify, staticUpstream.resolver, staticUpstream.stop, staticUpstream.upstreamHeaderReplacements, staticUpstream.upstreamHeaders, staticUpstream.wg
 //@   requires optionsParsed == 0
 //@   at call parseBlock do optionsParsed = optionsParsed + 1
 //@   at call (*staticUpstream).NewHost do createdAt(result0) = optionsParsed
@@ -404,7 +412,14 @@ package proxy
 //@   loop 3 invariant upstream != nil && hcOK(upstream)
 //@   loop 4 invariant 0 <= #i && #i <= len(to) && len(upstream.Hosts) == len(to) && upstream != nil && hcOK(upstream) && forall(k, 0, #i, createdAt(upstream.Hosts[k]) == optionsParsed)
 
-//@ unit response_hop_headers props=C04 filter=`proxy\.ReverseProxy\)\.ServeHTTP$`
+//@ unit response_hop_headers frames=on props=C04 filter=`proxy\.ReverseProxy\)\.ServeHTTP$`
+//@ func shallowCopyTrailers
+//@ func requestIsWebsocket
+//@   pure
+//@ func newConnHijackerTransport
+//@ func (*ReverseProxy).copyResponse
+//@ func copyHeader
+//@   modifies MV:map[string][]string, MD:map[string][]string
 //@ // Response side of "hop-by-hop headers (including any named in Connection) removed": when the static hop-by-hop list
 //@ // (which contains Connection itself) starts to be deleted from the backend's response, every header named on ANY
 //@ // Connection line of that response is already gone. Same vocabulary as unit upstream_request: tok/ntok are
@@ -431,6 +446,7 @@ package proxy
 //@ define listed(v string, b int) bool = trim(tok(v, b)) != ""
 //@ define lineDone(v string) bool = forall(b, 0, ntok(v), listed(v, b) ==> !has(res.Header, nm(v, b)))
 //@ func (*ReverseProxy).ServeHTTP
+//@   modifies MD:map[string][]string, MV:map[string][]string, URL.Scheme
 //@   may_panic
 //@   requires rp != nil && rp.dialer != nil && rw != nil && outreq != nil && outreq.URL != nil && outreq.Header != nil
 //@   at call (net/http.Header).Del#2 before [headers_named_on_every_connection_line_are_gone] forall(a, 0, len(res.Header["Connection"]), forall(b, 0, ntok(res.Header["Connection"][a]), listed(res.Header["Connection"][a], b) ==> !has(res.Header, nm(res.Header["Connection"][a], b))))
@@ -446,7 +462,8 @@ package proxy
 //@   loop 2 invariant forall(a, 0, #i1 - 1, lineDone(#r1[a]))
 //@   loop 3 invariant res != nil && res.Header != nil && forall(a, 0, len(res.Header["Connection"]), lineDone(res.Header["Connection"][a]))
 
-//@ unit upstream_hosts props=C11,C05 nilchecks=on filter=`proxy\.staticUpstream\)\.(NewHost|resolveHost|healthCheck)$|proxy\.staticUpstream\)\.healthCheck\$1$|proxy\.(replacePort|RegisterPolicy)$|proxy\.headerReplacements\)\.(Add|Del)$`
+//@ unit upstream_hosts frames=on props=C11,C05 nilchecks=on filter=`proxy\.staticUpstream\)\.(NewHost|resolveHost|healthCheck)$|proxy\.staticUpstream\)\.healthCheck\$1$|proxy\.(replacePort|RegisterPolicy)$|proxy\.headerReplacements\)\.(Add|Del)$`
+//@ func (*staticUpstream).NewHost$1
 //@ // The remaining constructors and the health-check pass of a static upstream (safety for every configuration and every
 //@ // answer of the resolver / the backend): NewHost returns a backend with its reverse proxy or an error; the health
 //@ // check reads only backends of the pool (non-nil, as NewStaticUpstreams fills it) and a response only when the
@@ -454,7 +471,7 @@ package proxy
 //@ use @verif/specs/stdlib.spec:stdlib
 //@ invariant supportedPolicies != nil
 //@ extern net/url.Parse
-//@   ensures result1 == nil ==> result0 != nil
+//@   ensures result1 == nil ==> (result0 != nil && fresh(result0))
 //@ func NewSingleHostReverseProxy
 //@   ensures result != nil
 //@ func (*ReverseProxy).UseInsecureTransport
@@ -467,7 +484,7 @@ package proxy
 //@ extern invoke:(github.com/tmpim/casket/caskethttp/proxy.srvResolver).LookupSRV
 //@   ensures result2 == nil ==> forall(k, 0, len(result1), result1[k] != nil)
 //@ extern net/http.NewRequest
-//@   ensures result1 == nil ==> result0 != nil
+//@   ensures result1 == nil ==> (result0 != nil && fresh(result0))
 //@ extern (*net/http.Client).Do
 //@   ensures result1 == nil ==> (result0 != nil && result0.Body != nil)
 //@ extern net/textproto.CanonicalMIMEHeaderKey
@@ -478,7 +495,9 @@ package proxy
 //@ extern (*net/url.URL).String
 //@ func (headerReplacements).Add
 //@   requires [table_exists] h != nil
+//@   modifies MV:map[string][]github.com/tmpim/casket/caskethttp/proxy.headerReplacement, MD:map[string][]github.com/tmpim/casket/caskethttp/proxy.headerReplacement, E:github.com/tmpim/casket/caskethttp/proxy.headerReplacement
 //@ func (headerReplacements).Del
+//@   modifies MV:map[string][]github.com/tmpim/casket/caskethttp/proxy.headerReplacement, MD:map[string][]github.com/tmpim/casket/caskethttp/proxy.headerReplacement
 //@ func (*staticUpstream).NewHost
 //@   requires u != nil
 //@   ensures [backend_or_error] (result1 == nil) == (result0 != nil)
@@ -492,6 +511,7 @@ package proxy
 //@   loop 2 invariant u != nil && u.resolver != nil && forall(k, 0, len(u.Hosts), u.Hosts[k] != nil) && host != nil
 //@ func replacePort
 //@ func RegisterPolicy
+//@   modifies MV:map[string]func([]string) github.com/tmpim/casket/caskethttp/proxy.Policy, MD:map[string]func([]string) github.com/tmpim/casket/caskethttp/proxy.Policy
 //@ func (*staticUpstream).healthCheck$1
 //@   requires u != nil
 
